@@ -176,8 +176,14 @@ func (fst *FSTree) Query(q *query.Query, local, internal bool) (*iterator.Iterat
 	fileInfo, err := os.Stat(walkPrefix)
 	var walkRoot string
 	switch {
-	case err == nil && fileInfo.IsDir():
+	case err == nil && fileInfo.IsDir() &&
+		(q.DatabaseKeyPrefix() == "" || strings.HasSuffix(q.DatabaseKeyPrefix(), "/")):
+		// The key prefix names a directory: walk it.
 		walkRoot = walkPrefix
+	case err == nil && fileInfo.IsDir():
+		// The key prefix ends within a path segment: sibling entries of the
+		// directory may match too.
+		walkRoot = filepath.Dir(walkPrefix)
 	case err == nil:
 		walkRoot = filepath.Dir(walkPrefix)
 	case errors.Is(err, fs.ErrNotExist):
@@ -195,6 +201,10 @@ func (fst *FSTree) Query(q *query.Query, local, internal bool) (*iterator.Iterat
 func (fst *FSTree) queryExecutor(walkRoot string, queryIter *iterator.Iterator, q *query.Query, local, internal bool) {
 	err := filepath.Walk(walkRoot, func(path string, info os.FileInfo, err error) error {
 		if err != nil {
+			if errors.Is(err, fs.ErrNotExist) {
+				// Nothing is stored below the key prefix.
+				return nil
+			}
 			return fmt.Errorf("fstree: error in walking fs: %w", err)
 		}
 
@@ -225,6 +235,10 @@ func (fst *FSTree) queryExecutor(walkRoot string, queryIter *iterator.Iterator, 
 		key, err := filepath.Rel(fst.basePath, path)
 		if err != nil {
 			return fmt.Errorf("fstree: failed to extract key from filepath %s: %w", path, err)
+		}
+		if !q.MatchesKey(key) {
+			// key prefix does not match
+			return nil
 		}
 		r, err := record.NewRawWrapper(fst.name, key, data)
 		if err != nil {
